@@ -25,9 +25,8 @@ CONSTANTS TMin, TMax
 T == TMin..TMax
 WrapAdd1(x) == IF x = TMax THEN TMin ELSE x + 1        \* x.wrapping_add(1)
 WrapSub1(x) == IF x = TMin THEN TMax ELSE x - 1        \* x.wrapping_sub(1)
-\* overflow-checked forms (debug builds panic): the model value "Overflow"
-CheckedAdd1(x) == IF x = TMax THEN "overflow" ELSE x + 1
-CheckedSub1(x) == IF x = TMin THEN "overflow" ELSE x - 1
+\* overflow-checked `x + 1` / `x - 1` (debug builds panic) are written out at their use sites as
+\* `IF x = TMax THEN Panic ELSE x + 1`: TLC cannot compare an integer with a non-integer sentinel
 \* size of the type and modular arithmetic inside it (only meaningful for exactly modelled types)
 Card == TMax - TMin + 1
 Wrap(x) == ((x - TMin) % Card) + TMin                    \* reduce any integer into the type
